@@ -63,13 +63,17 @@ DEFAULT_MACROS = ['textbf', 'emph', 'frac', 'sqrt', 'section', 'item', '\\', 'te
                   'documentclass', 'chapter', 'texorpdfstring', 'mathbf', 'url', 'ldots', '%', '&', ',', ' ']
 DEFAULT_ENVS = ['itemize', 'center', 'equation', 'align*', 'tabular', 'zzunknownenv', 'verbatim', 'lstlisting', 'array',
                 'enumerate', 'figure', 'alignat', 'zz' + 'long.name-' * 7]
-CUSTOM_MACROS = ['ma', 'mb', 'mc', 'md', 'mv', 'mw', 'mz', 'mt', 'mm', 'mq', '\\', 'unk']
+CUSTOM_MACROS = ['ma', 'mb', 'mc', 'md', 'mv', 'mw', 'mz', 'mt', 'mm', 'mq', 'mk', '\\', 'unk']
 CUSTOM_ENVS = ['ea', 'eb', 'em', 'e*', 'zz', 'zz' + 'q' * 61, 'zz' + 'w' * 130]
 
 _sig_cache = {}
 
 
 def _sig(ctx):
+    if ctx == 'default' and ctx not in _sig_cache:
+        # the signatures documents for the default context are written for: the RECORDED declarations
+        # (baseline_walkerctx.json), not whatever the live database says today
+        _sig_cache[ctx] = docast.Sig(docgen.baseline_default_cx())
     if ctx not in _sig_cache:
         db = docgen.make_db('legacyspell-ref' if ctx == 'legacyspell' else ctx)
         if db is None:
@@ -81,6 +85,13 @@ def _sig(ctx):
 
 def _pools(ctx, sig):
     if ctx == 'default':
+        # every environment the default context declares, and a rotating sample of all its macros
+        envs = DEFAULT_ENVS + [n for n in sorted(sig.envs) if n not in DEFAULT_ENVS and sig.envs[n]['args'][0] == 'std']
+        more = [n for n in sorted(sig.macros) if n not in DEFAULT_MACROS and sig.macros[n]['args'][0] == 'std'
+                and n.isalpha() and n not in ('begin', 'end')]
+        return (DEFAULT_MACROS + more, envs, ['~', '``', "''", '--', '---', '&'],
+                ['alpha', 'beta', 'zz', 'i', 'in', 'ne', 'e', 'nd', 'gin', 'ben'])
+    if ctx == 'default-old':
         # zero-argument macros usable as single-token arguments; several names are fragments of 'begin' / 'end'
         return DEFAULT_MACROS, DEFAULT_ENVS, ['~', '``', "''", '--', '---', '&'], ['alpha', 'beta', 'zz', 'i', 'in', 'ne', 'e',
                                                                                    'nd', 'gin', 'ben']
